@@ -373,6 +373,45 @@ pub fn world_c18(tier: Tier, world_no: u64, mut t: Tape) -> WorldReport {
                 rep.evaluations += 1;
             }
         }
+        // ---- L4 (continued): the path already holds an *equivalent* artifact in another serialisation
+        // (minified by a formatter, CRLF from another platform, a trailing newline from an editor)
+        if let Some(Ok(first)) = l2.first() {
+            let variant: Option<(Vec<u8>, &str)> = match t.draw(3) {
+                0 => serde_json::from_slice::<serde_json::Value>(first).ok().map(|v| (v.to_string().into_bytes(), "minified")),
+                1 => {
+                    let mut b = first.clone();
+                    b.push(b'\n');
+                    Some((b, "trailing-newline"))
+                }
+                _ => Some((String::from_utf8_lossy(first).replace('\n', "\r\n").into_bytes(), "crlf")),
+            };
+            if let Some((bytes, how)) = variant {
+                if &bytes != first {
+                    let out = dir.join("equiv.tii");
+                    let _ = std::fs::write(&out, &bytes);
+                    rep.fire("output-path-holds-equivalent-artifact");
+                    match run_tx3c_keep(src_path.to_str().unwrap(), out.to_str().unwrap(), seeds[0], true) {
+                        Ok(again) => {
+                            if &again != first {
+                                rep.violate(
+                                    "C18",
+                                    "L4-path-history",
+                                    format!("over-an-equivalent-artifact/{how}"),
+                                    format!(
+                                        "`{name}`: the output path held the same artifact re-serialised ({how}, {} bytes); after `tx3c build --emit tii` it holds {} bytes that differ from the {} bytes a fresh path gets",
+                                        bytes.len(),
+                                        again.len(),
+                                        first.len()
+                                    ),
+                                );
+                            }
+                        }
+                        Err(e) => rep.violate("C18", "L4-path-history", "fails-over-existing-artifact", format!("`{name}`: tx3c fails when the output path already holds an artifact: {e}")),
+                    }
+                    rep.evaluations += 1;
+                }
+            }
+        }
         let _ = std::fs::remove_dir_all(&dir);
         rep.evaluations += nproc as u64;
         match &l2[0] {
